@@ -238,9 +238,8 @@ static void generate(Rng &rng, const Opts &o, std::vector<std::string> &lines) {
     const int W = std::min(g_wsize, MAXNP);
     // 1. every contiguous partition of n <= 5 (thorough: 6) rows over np = 1..W ranks, rows and columns partitioned
     //    alike; the op rotates (quick) / every op on every partition (thorough, n <= 5)
-    //    (quick: n <= 4 for np >= 6 to bound the wall time on a loaded machine)
     int rot = 0;
-    for (int np = 1; np <= W; ++np) for (long n = 0; n <= (o.thorough() ? 6 : (np >= 6 ? 4 : 5)); ++n) {
+    for (int np = 1; np <= W; ++np) for (long n = 0; n <= (o.thorough() ? 6 : 5); ++n) {
         std::vector<std::vector<long>> parts; std::vector<long> cur; compositions(n, np, cur, parts);
         for (auto &p : parts) {
             if (o.thorough() && n <= 4) { for (int w = 0; w <= 9; ++w) lines.push_back(gen_case(rng, w, p, p, p, false)); }
